@@ -3062,7 +3062,9 @@ def optimize_blockwise_fusion(expr):
                 seen.add(next._name)
 
                 group.append(next)
-                for dep_name in dependencies[next._name]:
+                # iterate in a reproducible order: the set's own order depends
+                # on the interpreter's string-hash seed
+                for dep_name in sorted(dependencies[next._name]):
                     dep = expr_mapping[dep_name]
 
                     stack_names = {s._name for s in stack}
